@@ -82,7 +82,7 @@ def gen_case(rng, max_ops, mirror=False, ncomp=5):
         ws = rng.choice(wss)
         kind = rng.weighted([("ins", 22), ("ext", 12), ("rem", 18), ("ead", 8), ("erm", 8), ("wrt", 6),
                              ("clr", 2), ("shr", 3), ("rsv", 3), ("rset", 2), ("cln", 3), ("clf", 3),
-                             ("srd", 4), ("eq", 3), ("drop", 1), ("new", 1), ("qry", 9), ("eqry", 5), ("qwr", 3)])
+                             ("srd", 4), ("eq", 3), ("drop", 1), ("new", 1), ("qry", 9), ("eqry", 5), ("qwr", 3), ("mde", 6)])
         if kind == "ins":
             mask = rng.choice(palette) if rng.chance(5, 6) else anymask()
             desc = rng.below(2)
@@ -174,6 +174,40 @@ def gen_case(rng, max_ops, mirror=False, ncomp=5):
             freec[dst] = freec[ws]
             if rng.chance(2, 3):
                 lines.append("eq %d %d" % (dst, ws))
+        elif kind == "mde":
+            dst = rng.below(nworlds)
+            if dst == ws:
+                continue
+
+            def one_mutation():
+                m = rng.weighted([("none", 2), ("dupid", 4), ("setid", 3), ("gen", 2), ("freeadd", 3), ("freedel", 3),
+                                  ("freedup", 2), ("freelive", 3), ("len", 3), ("alen", 2), ("byte", 4), ("addbyte", 1),
+                                  ("delbyte", 1), ("delval", 2), ("addval", 2), ("poison", 3), ("delrow", 3), ("duprow", 3),
+                                  ("delarch", 2), ("duparch", 2), ("emptyarch", 2)])
+                a = [rng.below(8) for _ in range(4)]
+                if m == "setid":
+                    return "setid %d %d %d %d" % (a[0], a[1], rng.below(12), rng.below(3))
+                if m == "gen":
+                    return "gen %d %d %d" % (a[0], a[1], 1 + rng.below(3))
+                if m == "freeadd":
+                    return "freeadd %d %d" % (rng.below(12), rng.below(3))
+                if m == "len":
+                    return "len %d" % rng.choice([-2, -1, 1, 2, 5])
+                if m == "alen":
+                    return "alen %d %d" % (a[0], rng.choice([-1, 1, 2]))
+                if m == "byte":
+                    return "byte %d %d %d" % (a[0], a[1], 1 << rng.below(8))
+                if m == "emptyarch":
+                    return "emptyarch %d %d" % (rng.below(256), rng.below(256))
+                if m in ("delrow", "duprow"):
+                    return "%s %d %d %d" % (m, a[0], a[1], rng.below(2))
+                return ("%s %d %d %d %d" % (m, a[0], a[1], a[2], a[3])) if m != "none" else "none"
+            muts = [one_mutation()]
+            if rng.chance(1, 4):
+                muts.append(one_mutation())
+            lines.append("mde %d %d %d %s" % (ws, dst, rng.below(2), " ; ".join(muts)))
+            live[dst] = set(live[ws])
+            freec[dst] = freec[ws]
         elif kind == "eq":
             lines.append("eq %d %d" % (ws, rng.choice(wss)))
         elif kind == "drop":
@@ -314,9 +348,12 @@ def parse_trace(path):
     for line in open(path):
         line = line.rstrip("\n")
         if line.startswith("case "):
-            cur = {"id": int(line.split()[1]), "steps": [], "audit": None}
+            cur = {"id": int(line.split()[1]), "steps": [], "audit": None, "nreg": 5}
             cases.append(cur)
             step = None
+        elif line.startswith("nreg "):
+            if cur is not None:
+                cur["nreg"] = int(line.split()[1])
         elif line.startswith("audit"):
             if cur is not None:
                 cur["audit"] = line
@@ -367,8 +404,9 @@ VIEWS = {"content": content_view, "alloc": alloc_view, "struct": struct_view, "r
 def project(step, views, with_ret=True, with_ev=False):
     out = []
     if with_ret:
-        out.append(("ret", step["ret"]))
-    if with_ev:
+        r = step["ret"]
+        out.append(("ret", r.split()[0] if r and r.startswith("err-") else r))
+    if with_ev and list(step["ev"]) != ["?"]:
         out.append(("ev", tuple(step["ev"])))
     for ws in sorted(step["worlds"]):
         for v in views:
@@ -389,7 +427,8 @@ def first_divergence(impl_case, model_case, views, with_ret=True, with_ev=False,
             continue
         # the verdict of `==` is the business of C16 only (op_filter selects it there)
         wr = with_ret and (op_filter is not None or not a["op"].startswith("eq "))
-        if project(a, views, wr, with_ev) != project(b, views, wr, with_ev):
+        we = with_ev and list(a["ev"]) != ["?"] and list(b["ev"]) != ["?"]
+        if project(a, views, wr, we) != project(b, views, wr, we):
             return i
     return None
 
@@ -562,6 +601,73 @@ def spec_row(vs, e, cv):
     return ",".join(items) or "_"
 
 
+def parse_content(op):
+    """op cde dst hr | A hex declared nrows (idx gen k v…)* | … | L len | F i:g … | R v v v v"""
+    secs = [x.split() for x in op.split("|")[1:]]
+    c = {"archs": [], "length": 0, "free": [], "res": [], "poison": False}
+    for s_ in secs:
+        if not s_:
+            continue
+        if s_[0] == "A":
+            hexs, declared, nrows = s_[1], int(s_[2]), int(s_[3])
+            by = [] if hexs == "-" else [int(hexs[2 * i:2 * i + 2], 16) for i in range(len(hexs) // 2)]
+            rows = []
+            p = 4
+            poisoned = None
+            for ri in range(nrows):
+                idx, gen, k = int(s_[p]), int(s_[p + 1]), int(s_[p + 2])
+                vals = []
+                for j in range(k):
+                    tk = s_[p + 3 + j]
+                    if tk.startswith("!"):
+                        poisoned = (ri, j)
+                        vals.append(int(tk[1:]))
+                    else:
+                        vals.append(int(tk))
+                rows.append(((idx, gen), vals))
+                p += 3 + k
+            c["archs"].append({"bytes": by, "declared": declared, "rows": rows, "poison": poisoned})
+            if poisoned:
+                c["poison"] = True
+        elif s_[0] == "L":
+            c["length"] = int(s_[1])
+        elif s_[0] == "F":
+            c["free"] = [eid(x) for x in s_[1:]]
+        elif s_[0] == "R":
+            c["res"] = [int(x) for x in s_[1:]]
+    return c
+
+
+def content_valid(c, n):
+    """The specification of acceptable serialized content, independent of the model."""
+    nb = (n + 7) // 8
+    seen_shapes = set()
+    for a in c["archs"]:
+        if len(a["bytes"]) != nb:
+            return False, "identifier of %d bytes" % len(a["bytes"])
+        for k in range(n, 8 * nb):
+            if a["bytes"][k // 8] >> (k % 8) & 1:
+                return False, "padding bit %d set" % k
+        if tuple(a["bytes"]) in seen_shapes:
+            return False, "archetype listed twice"
+        seen_shapes.add(tuple(a["bytes"]))
+        if a["declared"] != len(a["rows"]):
+            return False, "declared length %d for %d rows" % (a["declared"], len(a["rows"]))
+        ncols = sum(a["bytes"][k // 8] >> (k % 8) & 1 for k in range(n))
+        if any(len(v) != ncols for _, v in a["rows"]):
+            return False, "row with the wrong number of values"
+        if a["poison"]:
+            return False, "value of the wrong type"
+    ids = [i for a in c["archs"] for (i, _), _ in a["rows"]] + [i for i, _ in c["free"]]
+    if len(ids) != len(set(ids)):
+        return False, "slot index used twice"
+    if any(i >= c["length"] or i < 0 for i in ids):
+        return False, "slot index out of range"
+    if set(ids) != set(range(c["length"])):
+        return False, "slot index unaccounted for"
+    return True, ""
+
+
 class RefWorlds:
     """The reference map of C01 (plus issued-set history for C02, resources for C15),
     driven by the implementation's own return values."""
@@ -571,6 +677,7 @@ class RefWorlds:
         self.res = {}       # ws -> [v, v]
         self.ever = {}      # ws -> set of eids ever issued in this lineage
         self.issued = []    # global, in order
+        self.nreg = 5
 
     def apply(self, step):
         """Returns (list of property failures as (prop, msg), known_class or None)."""
@@ -695,6 +802,36 @@ class RefWorlds:
                                 n += 1
                 if ret != "n %d" % n:
                     fails.append(("C03", "mutable query %s filter %s wrote %r components, expected %d" % (t[4], t[5], ret, n)))
+        elif k == "mde":
+            # the source world does not exist: the harness only clears the destination
+            src, dst = int(t[1]), int(t[2])
+            if src != dst:
+                self.maps.pop(dst, None)
+                self.res.pop(dst, None)
+                self.ever.pop(dst, None)
+        elif k == "cde":
+            dst = int(t[1])
+            content = parse_content(step["op"])
+            valid, why = content_valid(content, self.nreg)
+            self.maps.pop(dst, None)
+            self.res.pop(dst, None)
+            self.ever.pop(dst, None)
+            if ret == "ok":
+                if not valid:
+                    fails.append(("C11", "deserialization accepted invalid content (%s): %s" % (why, step["op"][:300])))
+                m = {}
+                for a in content["archs"]:
+                    cs = [c for c in range(self.nreg) if a["bytes"][c // 8] >> (c % 8) & 1] if len(a["bytes"]) * 8 >= self.nreg else []
+                    for ident, vals in a["rows"]:
+                        m[ident] = dict(zip(cs, vals))
+                self.maps[dst] = m
+                self.res[dst] = list(content["res"])
+                self.ever[dst] = set(m) | set(content["free"])
+            elif ret.startswith("err"):
+                if valid:
+                    fails.append(("C06", "deserialization rejected valid content: %s :: %s" % (ret, step["op"][:300])))
+            else:
+                fails.append(("C11", "deserialization of mutated content neither returned nor failed cleanly: %r" % ret))
         elif k in ("cln", "clf", "srd"):
             if k == "cln":
                 src, dst = int(t[1]), int(t[2])
@@ -777,6 +914,8 @@ def oracle_case(impl_case):
     """Run every oracle on one implementation case.
     Returns {'fails': [(step_index, prop, msg)], 'known': [(step_index, class)], 'corners': set()}"""
     ref = RefWorlds()
+    ref.nreg = impl_case.get("nreg", 5)
+    k11_leaked = Counter()
     fails = []
     known = []
     corners = set()
@@ -868,8 +1007,42 @@ def oracle_case(impl_case):
                     exp["E:%d:%d" % (c, v)] += n
             else:
                 check_ledger = False
-        elif k == "new":
+        elif k in ("new", "mde"):
             check_ledger = False
+        elif k == "cde":
+            content = parse_content(st["op"])
+            nreg = ref.nreg
+            got = Counter(st["ev"])
+            if st["ret"] == "ok":
+                for a in content["archs"]:
+                    cs = [c for c in range(nreg) if len(a["bytes"]) * 8 > c and a["bytes"][c // 8] >> (c % 8) & 1]
+                    for _, vals in a["rows"]:
+                        for c, v in zip(cs, vals):
+                            exp["E:%d:%d" % (c, v)] += 1
+                for j, v in enumerate(content["res"]):
+                    exp["E:%d:%d" % (100 + j, v)] += 1
+            else:
+                check_ledger = False
+                made = Counter({x[2:]: n for x, n in got.items() if x.startswith("E:")})
+                dropped = Counter({x[2:]: n for x, n in got.items() if x.startswith("D:")})
+                twice = dropped - made
+                leaked = made - dropped
+                if twice:
+                    fails.append((i, "C11", "failed deserialization dropped values it never created or dropped them twice: %s" % sorted(twice.elements())[:6]))
+                if leaked:
+                    hr = st["op"].split()[2] == "1"
+                    row_cells = set()
+                    for a in content["archs"]:
+                        if a["poison"]:
+                            cs = [c for c in range(nreg) if len(a["bytes"]) * 8 > c and a["bytes"][c // 8] >> (c % 8) & 1]
+                            ri, cj = a["poison"]
+                            vals = a["rows"][ri][1]
+                            row_cells |= {"%d:%d" % (c, v) for c, v in list(zip(cs, vals))[:cj]}
+                    if hr and content["poison"] and set(leaked) <= row_cells:
+                        known.append((i, "K11"))
+                        k11_leaked.update(leaked)
+                    else:
+                        fails.append((i, "C11", "failed deserialization leaked values: %s (%s)" % (sorted(leaked.elements())[:6], st["ret"][:80])))
         elif k == "qwr":
             exp = qwr_drops if qwr_drops is not None else Counter()
         else:
@@ -938,7 +1111,14 @@ def oracle_case(impl_case):
                             fails.append((i, "C16", "copy made by %s does not compare equal to its source" % po[0]))
         prev_lines = {ws: w["lines"] for ws, w in st["worlds"].items()}
     if impl_case["audit"] is not None and impl_case["audit"].strip() != "audit live=[] double=[]":
-        fails.append((len(impl_case["steps"]), "C04", "end-of-case ledger audit: " + impl_case["audit"]))
+        import re as _re
+        aud = impl_case["audit"]
+        live = Counter()
+        for c_, v_, n_ in _re.findall(r"\(\((\d+), (\d+)\), (-?\d+)\)", aud.split("double=")[0]):
+            live["%s:%s" % (c_, v_)] += int(n_)
+        # values leaked by the known finding F9 (class K11) stay live for ever: not a new violation
+        if not ("double=[]" in aud and all(n_ > 0 for n_ in live.values()) and not (live - k11_leaked)):
+            fails.append((len(impl_case["steps"]), "C04", "end-of-case ledger audit: " + aud))
     return {"fails": fails, "known": known, "corners": corners}
 
 
